@@ -244,10 +244,22 @@ static void atan2_case(vf_rng *r)
     }
 }
 
+/* Regime 5: every component of one point lies in a narrow band (factor 0.85..1.18, or 1 +- 1e-3) around a common centre c that is
+   itself within a few octaves of sqrt(MAX / n) or sqrt(MIN): there the squares are still (already) representable while their sum -
+   or a shortcut guarded by sqrt(MAX) where sqrt(MAX / 2) is needed - is not (seeded change C11-I: `y < 1e154` guards
+   sqrt(x*x + y*y), which is inf for both components in (8.93e153, 1e154)).  Independent log-uniform components meet such a band
+   about once in 1e8 points. */
+static double g_band;
+static void band_centre(vf_rng *r, size_t n)
+{
+    g_band = vf_chance(r, 1, 2) ? sqrt((double)RMAX / (double)(n ? n : 1)) * exp2(vf_uniform(r, -1.5, 0.6)) : sqrt((double)RMIN) * exp2(vf_uniform(r, -0.6, 1.5));
+    VF_COUNT("components-around-sqrt-of-range-limits");
+}
 static a_real comp(vf_rng *r, int regime)
 {
     /* regime 0 moderate, 1 near the top of the range, 2 near the bottom (normal) */
     double v;
+    if (regime == 5) { return (a_real)(g_band * (vf_chance(r, 1, 2) ? 1 + vf_uniform(r, -1e-3, 1e-3) : vf_uniform(r, 0.85, 1.18)) * vf_sign(r)); }
     switch (regime)
     {
     case 1: v = (double)RMAX / 2 * vf_uniform(r, 0.05, 0.7); break;
@@ -264,9 +276,11 @@ static void norm23_case(vf_rng *r)
     char d[128];
     for (int i = 0; i < NPTS; ++i)
     {
-        int regime = (int)vf_below(r, 5);
-        a_real x = comp(r, regime), y = comp(r, regime == 4 || vf_chance(r, 3, 4) ? regime : 0), z = comp(r, regime == 4 || vf_chance(r, 3, 4) ? regime : 0);
+        int regime = (int)vf_below(r, 6);
+        a_real x, y, z;
         q_t r2, r3;
+        if (regime == 5) { band_centre(r, (size_t)(2 + vf_below(r, 2))); }
+        x = comp(r, regime); y = comp(r, regime >= 4 || vf_chance(r, 3, 4) ? regime : 0); z = comp(r, regime >= 4 || vf_chance(r, 3, 4) ? regime : 0);
         if (regime == 3) { x = (a_real)(vf_sign(r) * logu(r, TINY, HUGE_)); y = (a_real)(vf_sign(r) * logu(r, TINY, HUGE_)); z = (a_real)(vf_sign(r) * logu(r, TINY, HUGE_)); }
         r2 = sqrtq((q_t)x * x + (q_t)y * y);
         r3 = sqrtq((q_t)x * x + (q_t)y * y + (q_t)z * z);
@@ -306,11 +320,12 @@ static void normn_case(vf_rng *r)
     for (int i = 0; i < NPTS / 4; ++i)
     {
         size_t n = draw_n(r), c = 1 + (size_t)vf_below(r, 4);
-        int regime = (int)vf_below(r, 4) == 3 ? 4 : (int)vf_below(r, 3);
+        int regime = (int)vf_below(r, 4) == 3 ? 4 + (int)vf_below(r, 2) : (int)vf_below(r, 3);
         a_real *p = (a_real *)malloc((n * c ? n * c : 1) * sizeof(a_real)); /* exact size: a stride error is an ASan report */
         a_real *q = (a_real *)malloc((n ? n : 1) * sizeof(a_real));
         q_t s = 0, ref_r;
         for (size_t j = 0; j < n * c; ++j) { p[j] = (a_real)(12345.0 + (double)j); }
+        if (regime == 5) { band_centre(r, n); }
         for (size_t j = 0; j < n; ++j)
         {
             a_real v = comp(r, regime);
@@ -394,6 +409,7 @@ static void polar_case(vf_rng *r)
         q_t rr, tt, h = 0x1p-30Q, kt;
         if (vf_chance(r, 1, 10)) { x = 0; }
         if (vf_chance(r, 1, 10)) { y = 0; }
+        if (vf_chance(r, 1, 12)) { band_centre(r, 2); x = comp(r, 5); y = comp(r, 5); }
         if (x == 0 && y == 0) { continue; } /* origin / z axis: axis_points_case */
         snprintf(d, sizeof(d), "x=%a y=%a", (double)x, (double)y);
         if (i < 2) { vf_log("cart2pol %s", d); }
@@ -434,6 +450,7 @@ static void sphere_case(vf_rng *r)
         q_t rr, r2, tt, aa, h = 0x1p-30Q, kt, ka;
         if (vf_chance(r, 1, 10)) { z = 0; }
         if (vf_chance(r, 1, 12)) { y = 0; }
+        if (vf_chance(r, 1, 12)) { band_centre(r, (size_t)(2 + vf_below(r, 2))); x = comp(r, 5); y = comp(r, 5); z = vf_chance(r, 1, 4) ? z : comp(r, 5); }
         if (x == 0 && y == 0) { continue; } /* origin / z axis: axis_points_case */
         snprintf(d, sizeof(d), "x=%a y=%a z=%a", (double)x, (double)y, (double)z);
         if (i < 2) { vf_log("cart2sph %s", d); }
